@@ -200,18 +200,38 @@ Proof.
   intros o1 o2 st inp H1 H2. unfold convert_from.
   destruct (number_items (i_items inp)) as [keys matching].
   destruct (convert_cells _ _ _ _ _ _ _) as [st1|e]; [|reflexivity]. cbn [bind].
-  destruct (match i_renumber inp with None => _ | Some ren => _ end) as [d1|e];
-    [|reflexivity]. cbn [bind].
-  destruct (remove_empty_volumes _ _ d1) as [d2|e]; [|reflexivity]. cbn [bind].
-  rewrite (remove_unused_order_irrelevant o1 o2 d2 H1 H2).
-  rewrite (zsort_order o1), (zsort_order o2); auto.
-  set (d3 := remove_unused_volumes o2 d2).
-  assert (Hl : map (fun kv => volume_line o1 (fst kv) (snd kv))
-                   (filter (fun kv => negb (zmem (fst kv) (i_skipped inp))) d3)
-             = map (fun kv => volume_line o2 (fst kv) (snd kv))
-                   (filter (fun kv => negb (zmem (fst kv) (i_skipped inp))) d3)).
-  { apply map_ext. intros kv. apply volume_line_order_irrelevant; assumption. }
-  rewrite Hl. reflexivity.
+  assert (Tail : forall d1 ru0 ru1 surf_keys,
+    (do d2 <- remove_empty_volumes ru0 ru1 d1;
+     let d3 := remove_unused_volumes o1 d2 in
+     let lines := map (fun kv => volume_line o1 (fst kv) (snd kv))
+                      (filter (fun kv => negb (zmem (fst kv) (i_skipped inp))) d3) in
+     let used := zsort (o1 (used_surfaces d3)) in
+     if forallb (fun x => zmem x surf_keys) used
+     then Ok (st1, mkOut used lines) else Err EKey)
+    = (do d2 <- remove_empty_volumes ru0 ru1 d1;
+       let d3 := remove_unused_volumes o2 d2 in
+       let lines := map (fun kv => volume_line o2 (fst kv) (snd kv))
+                        (filter (fun kv => negb (zmem (fst kv) (i_skipped inp))) d3) in
+       let used := zsort (o2 (used_surfaces d3)) in
+       if forallb (fun x => zmem x surf_keys) used
+       then Ok (st1, mkOut used lines) else Err EKey)).
+  { intros d1 ru0 ru1 surf_keys.
+    destruct (remove_empty_volumes ru0 ru1 d1) as [d2|e]; [|reflexivity]. cbn [bind]. cbv zeta.
+    rewrite (remove_unused_order_irrelevant o1 o2 d2 H1 H2).
+    rewrite (zsort_order o1), (zsort_order o2); auto.
+    set (d3 := remove_unused_volumes o2 d2).
+    assert (Hl : map (fun kv => volume_line o1 (fst kv) (snd kv))
+                     (filter (fun kv => negb (zmem (fst kv) (i_skipped inp))) d3)
+               = map (fun kv => volume_line o2 (fst kv) (snd kv))
+                     (filter (fun kv => negb (zmem (fst kv) (i_skipped inp))) d3)).
+    { apply map_ext. intros kv. apply volume_line_order_irrelevant; assumption. }
+    rewrite Hl. reflexivity. }
+  destruct (i_renumber inp) as [ren|].
+  - destruct (renumber_all ren (vols st1)) as [d1|e]; [|reflexivity]. cbn [bind].
+    destruct (dget _ ren) as [a|]; [|reflexivity].
+    destruct (dget _ ren) as [b|]; [|reflexivity]. cbn [bind].
+    apply Tail.
+  - cbn [bind]. apply Tail.
 Qed.
 
 Lemma conversion_order_irrelevant : forall order1 order2 ps inp,
